@@ -50,24 +50,25 @@ type callScript struct {
 	CancelAfter int  // client cancels after receiving this many messages (-1 never)
 	Deadline    bool // the handler blocks on ctx.Done(); the client uses a short deadline
 	OutMD       [2]string
+	ViaStream   bool // unary only: the client opens the unary method as a (non-streaming) stream, as generic proxies do
 }
 
 func (s callScript) String() string {
-	return fmt.Sprintf("%s pre=%v serverMsgs=%q mid=%v code=%d msg=%q plain=%v failAfter=%d clientMsgs=%q cancelAfter=%d deadline=%v outMD=%v",
-		s.Shape, s.PreOps, s.ServerMsgs, s.MidOps, s.Code, s.Msg, s.PlainErr, s.FailAfter, s.ClientMsgs, s.CancelAfter, s.Deadline, s.OutMD)
+	return fmt.Sprintf("%s pre=%v serverMsgs=%q mid=%v code=%d msg=%q plain=%v failAfter=%d clientMsgs=%q cancelAfter=%d deadline=%v outMD=%v viaStream=%v",
+		s.Shape, s.PreOps, s.ServerMsgs, s.MidOps, s.Code, s.Msg, s.PlainErr, s.FailAfter, s.ClientMsgs, s.CancelAfter, s.Deadline, s.OutMD, s.ViaStream)
 }
 
 // ---- the one scripted server serving both transports -----------------------------------------------------------
 
 type scriptedServer struct {
 	testproto.UnimplementedTestApiServer
-	mu     sync.Mutex
-	script callScript
-	recvd  []string // messages received by the server in this call
-	inMD   []string
-	held   []any // received messages (for the isolation check)
-	done   chan struct{}
-	started chan struct{}
+	mu        sync.Mutex
+	script    callScript
+	recvd     []string // messages received by the server in this call
+	inMD      []string
+	held      []any // received messages (for the isolation check)
+	done      chan struct{}
+	started   chan struct{}
 	startOnce *sync.Once
 }
 
@@ -110,7 +111,7 @@ type ctxSetter struct{ ctx context.Context }
 
 func (c ctxSetter) SetHeader(md metadata.MD) error  { return grpc.SetHeader(c.ctx, md) }
 func (c ctxSetter) SendHeader(md metadata.MD) error { return grpc.SendHeader(c.ctx, md) }
-func (c ctxSetter) SetTrailer(md metadata.MD)        { _ = grpc.SetTrailer(c.ctx, md) }
+func (c ctxSetter) SetTrailer(md metadata.MD)       { _ = grpc.SetTrailer(c.ctx, md) }
 
 func applyOps(ss mdSetter, ops []mdOp) {
 	for _, op := range ops {
@@ -297,6 +298,25 @@ func runClient(cc grpc.ClientConnInterface, srv *scriptedServer, sc callScript) 
 	}
 	switch sc.Shape {
 	case "unary":
+		if sc.ViaStream {
+			var cs grpc.ClientStream
+			cs, err = cc.NewStream(ctx, &grpc.StreamDesc{}, "/sc.go.test.TestApi/Unary")
+			if err == nil {
+				if err = cs.SendMsg(&testproto.UnaryRequest{Msg: sc.ClientMsgs[0]}); err == nil {
+					_ = cs.CloseSend()
+					resp := &testproto.UnaryResponse{}
+					if err = cs.RecvMsg(resp); err == nil {
+						tr.Received = append(tr.Received, resp.Msg)
+						// the status of a call that produced its response arrives with the end of the stream
+						if err = cs.RecvMsg(&testproto.UnaryResponse{}); err == io.EOF {
+							err = nil
+						}
+					}
+				}
+				finishStream(cs)
+			}
+			break
+		}
 		var resp *testproto.UnaryResponse
 		resp, err = client.Unary(ctx, &testproto.UnaryRequest{Msg: sc.ClientMsgs[0]}, grpc.Header(&header), grpc.Trailer(&trailer))
 		if err == nil {
@@ -439,6 +459,7 @@ func genScript(t *rapid.T) callScript {
 		sc.ClientMsgs = []string{rapid.SampledFrom([]string{"hello", ""}).Draw(t, "req")}
 		sc.ServerMsgs = []string{"resp"}
 		sc.Deadline = rapid.IntRange(0, 9).Draw(t, "deadline") == 0
+		sc.ViaStream = rapid.IntRange(0, 2).Draw(t, "viaStream") == 0
 	case "serverStream":
 		n := rapid.IntRange(0, 5).Draw(t, "nserver")
 		for i := 0; i < n; i++ {
